@@ -178,12 +178,15 @@ Definition tk_agree (c : tkcase) : bool :=
   qle (Qabs (obj_after - (normX2 - tk_core_norm2 Qops X rs (t_after c)))) (tol_cert * normX2) &&
   qle obj_after (obj_before + tol_cert * normX2) &&
   (* the matrix the implementation handed to the SVD of this block is the model's mode-k unfolding of X x_{j<>k} U_j'
-     (unfold_k of Proofs/DescentProofsUnfold.v: the core with the unit vector e_i in place of factor k, core index 0 in mode k) *)
-  (let k := t_k c in let d := nth k (shape X) 0%nat in let rs' := set_nth k 1%nat rs in
-   let yscale := qsumabs d (fun i => qsumabs (prod rs') (fun cc => mget Qops (t_Y c) i cc)) in
-   forall_lt d (fun i => forall_lt (prod rs') (fun cc =>
-     qle (Qabs (tk_core_at Qops X (set_nth k (unit_mat Qops d 1 i 0) (t_before c)) (unravel rs' cc) - mget Qops (t_Y c) i cc))
-         (tol_match * yscale + atol_tiny)))).
+     (unfold_k of Proofs/DescentProofsUnfold.v: the core with the unit vector e_i in place of factor k, core index 0 in mode k),
+     compared through the Gram matrix Y Y' - what the leading left singular vectors and the objective depend on: invariant under a
+     re-ordering / sign change / rotation of the columns of the other factors (harmless refactorings), sensitive to wrong or stale factors *)
+  (let k := t_k c in let d := nth k (shape X) 0%nat in let rs' := set_nth k 1%nat rs in let p := prod rs' in
+   let Ym := tab2 d p (fun i cc => tk_core_at Qops X (set_nth k (unit_mat Qops d 1 i 0) (t_before c)) (unravel rs' cc)) in
+   let gm := fun (M : qmat) (i i' : nat) => gsum Qops p (fun cc => Qred (mget Qops M i cc * mget Qops M i' cc)) in
+   let yscale := gsum Qops d (fun i => gm (t_Y c) i i) in
+   forall_lt d (fun i => forall_lt d (fun i' =>
+     qle (Qabs (gm Ym i i' - gm (t_Y c) i i')) (tol_match * yscale + atol_tiny)))).
 
 (* coupled block of CMTF: state before the block, V, the implementation's new coupled factor: normal equations of the MODEL system
    G + V'V against MTTKRP + Y V, exact coupled objective does not increase *)
